@@ -205,6 +205,32 @@ func c16Stream(cs *drv.Case, lens []int) {
 				_ = x
 			}
 		}
+		// overwriting one in place must not either - nor may it reach memory the runtime shares between all
+		// one-byte strings (a returned 1-byte slice that points into the runtime's static byte table)
+		for i := range rs {
+			if len(rs[i].b) == 0 {
+				continue
+			}
+			for k := range rs[i].b {
+				rs[i].b[k] ^= 0xFF
+			}
+			bad := -1
+			for k := range rs {
+				if k != i && !rs[k].intact() {
+					bad = k
+					break
+				}
+			}
+			static := staticBytesIntact()
+			for k := range rs[i].b {
+				rs[i].b[k] ^= 0xFF
+			}
+			if bad >= 0 || !static {
+				cs.Fail("decoded-values-share-memory", M{"api": "BufferReader.ReadBinary", "runtime_byte_table": !static}, M{"len_modified": len(rs[i].snap),
+					"message": fmt.Sprintf("overwriting returned value #%d in place changed returned value #%d / the runtime's shared one-byte strings (intact: %v)", i, bad, static)})
+				return
+			}
+		}
 		if !checkRetained(cs, rs, "after appending to siblings") {
 			return
 		}
@@ -312,6 +338,20 @@ func monC16(c *drv.Ctx) {
 	// under either setting must stay intact and independent afterwards
 	c.Stage("toggle-between-decodes", c.Pick(300, 3000), false, func(cs *drv.Case) {
 		r := cs.R
+		// the same input decoded under both settings gives identical results, down to nil versus empty
+		for _, l := range []int{0, 1, 127, 128, 200000} {
+			in := ref.EncBinary(nil, gen.Bytes(r, l))
+			thrift.SetSpanCache(false)
+			b0, n0, e0 := thrift.Binary.ReadBinary(in)
+			thrift.SetSpanCache(true)
+			b1, n1, e1 := thrift.Binary.ReadBinary(in)
+			thrift.SetSpanCache(false)
+			if n0 != n1 || (e0 == nil) != (e1 == nil) || !bytes.Equal(b0, b1) || (b0 == nil) != (b1 == nil) || (cap(b0) == 0) != (cap(b1) == 0) && l > 0 {
+				cs.Fail("span-cache-changes-result", M{"api": "Binary.ReadBinary"}, M{"len": l, "nil_off": b0 == nil, "nil_on": b1 == nil, "n_off": n0, "n_on": n1,
+					"message": "the value decoded with the span cache enabled differs from the one decoded with it disabled"})
+				return
+			}
+		}
 		var rs []retained
 		var ins [][]byte
 		on := r.Intn(2) == 0
@@ -395,4 +435,18 @@ func monC16(c *drv.Ctx) {
 		})
 	}
 	thrift.SetSpanCache(false)
+}
+
+// staticBytesIntact: converting a fresh one-byte slice to a string gives that byte, for every byte value (the
+// runtime serves such conversions from one shared table; a decoder that hands out a slice into it lets its
+// caller overwrite the table).
+func staticBytesIntact() bool {
+	var x [1]byte
+	for v := 0; v < 256; v++ {
+		x[0] = byte(v)
+		if s := string(x[:]); s[0] != byte(v) {
+			return false
+		}
+	}
+	return true
 }
